@@ -82,13 +82,20 @@ CLAIMS = {
 CLAIMS.update({
     "C14": dict(
         technique="Lean 4 theorems about the parser model (markers, splitting, escape grammar) + exhaustive/random model-implementation correspondence with grammar oracles",
-        text="Partial proof. Theorems: marker table (negation, kinds, escapes), a text whose spaces are all escaped is a single atom (splitting only at unescaped whitespace, "
+        text="Theorems. C14_one_grammar (companion file C14_OneGrammar): both bodies of Atom::new_inner - the byte path with split(\"\\ \")/to_ascii_lowercase/"
+             "is_ascii_uppercase and the grapheme loop with its saw_backslash state machine, the case-folding table and the normalization tables - compute ONE function "
+             "(atomSpec) of the text's characters: needle = replaceEscSpace of the characters (every backslash-space becomes a space, every other backslash stays), lower-cased "
+             "when case is ignored; smart case = no upper-case character; smart normalization = no character normalization would change (vacuous on ASCII) - for every text, "
+             "setting, kind and flag, with no assumption about the segmentation (escRun_spec: the state machine is replaceEscSpace with a pending backslash counted as one more "
+             "character in front). C14_literal_roundtrip: the literal round trip for EVERY text, ASCII or not; for non-ASCII text under the explicit segmentation facts SegLit "
+             "(escaping spaces does not move cluster boundaries, a final $ is its own cluster, a non-empty text has a cluster - they fail for exotic texts such as a Prepend "
+             "character directly before a space, where the two constructions genuinely differ). Also: marker table (negation, kinds, escapes), a text whose spaces are all escaped is a single atom (splitting only at unescaped whitespace, "
              "for every text), replacing escaped spaces inverts escaping for every text (ASCII path), reparse = parse (the model is a function); the complete literal round trip "
              "for ASCII text (C14_literal_roundtrip_ascii: for every escapable text and every CaseMatching x Normalization, parsing its escaped form - leading marker escaped, "
-             "spaces escaped, trailing $ escaped - yields exactly one positive fuzzy atom, the atom built from the text itself; with case respected the needle is the text). The "
-             "round trip through the non-ASCII escape loop, smart case/normalization and case-folded storage are evaluated as oracle clauses on the implementation's atoms for every "
+             "spaces escaped, trailing $ escaped - yields exactly one positive fuzzy atom, the atom built from the text itself; with case respected the needle is the text). "
+             "The round trip, smart case/normalization and case-folded storage are also evaluated as oracle clauses on the implementation's atoms for every "
              "generated pattern, including all 7381 texts of length <= 4 over {a B ! ^ ' $ \\ space ä}; model = implementation on all of them (both new_inner paths).",
-        note="Trusted: Lean kernel, axioms propext/Classical.choice/Quot.sound, harness+driver. Grapheme segmentation is a model input; private flags are read from Debug output."),
+        note="Trusted: Lean kernel, axioms propext/Classical.choice/Quot.sound, harness+driver. Grapheme segmentation is a model input (SegLit states what the non-ASCII round trip needs of it; the oracle evaluates the round trip on the implementation with the real segmentation); private flags are read from Debug output."),
     "C15": dict(
         technique="Lean 4 theorems (conjunction/sum/concatenation, negation, flag overwrite, sorted stable permutation) + correspondence on random atom lists",
         text="Theorems over the model for every atom list, haystack and configuration, with the matcher calls abstract: a negated atom matches iff its inner match fails and "
